@@ -421,6 +421,9 @@ def corruptions(raw, tier_all):
             b = bytearray(raw)
             b[i] ^= 1 << bit
             out.append(('bitflip', bytes(b)))
+    # garbage a decoder may choke on in other ways than "invalid JSON": deep nesting, huge numbers, wrong encodings
+    out += [('deep-nesting', b'[' * 100000), ('deep-nesting-object', b'{"a":' * 50000), ('huge-number', b'{"x": 1' + b'0' * 5000 + b'}'),
+            ('utf16', raw.decode('utf-8', 'replace').encode('utf-16')), ('nul-bytes', b'\0' * 64), ('invalid-utf8', b'{"\xff\xfe": 1}')]
     return out
 
 
@@ -458,11 +461,11 @@ def check_corruption(ctx, case, thorough=False):
             ctx.ev()
             with open(file_path(workdir), 'wb') as f:
                 f.write(data)
-            sub = dict(case, corruption={'label': label, 'data': data.decode('latin-1')})
+            sub = dict(case, corruption={'label': label, 'data': data[:2000].decode('latin-1'), 'length': len(data)})
             try:
                 parsed = json.loads(data.decode('utf-8'))
                 valid_json = True
-            except ValueError:
+            except (ValueError, RecursionError):
                 parsed, valid_json = None, False
             if valid_json:
                 ctx.nt((json.dumps(case, sort_keys=True, default=repr), label, data))
